@@ -64,3 +64,14 @@ Qed.
 Lemma sig_clear_forgets_channel ops : st_channel_hash (sig_run (ops ++ [OpClear])) = None /\
                                       st_signature (sig_run (ops ++ [OpClear])) = None.
 Proof. unfold sig_run. rewrite fold_left_app. split; reflexivity. Qed.
+
+(* ---------- typed views ---------- *)
+Lemma claim_view_typed c req : fst (claim_view (Some c) req) = Some c /\ (snd (claim_view (Some c) req) = true <-> c = req).
+Proof. cbn. split; [reflexivity | apply N.eqb_eq]. Qed.
+
+Lemma claim_view_fresh req : claim_view None req = (Some req, true).
+Proof. reflexivity. Qed.
+
+(* any number of requests, granted or refused, leave a typed claim with the type it had *)
+Lemma claim_view_history c reqs : fold_left (fun cur r => fst (claim_view cur r)) reqs (Some c) = Some c.
+Proof. induction reqs as [|r reqs IH]; [reflexivity | exact IH]. Qed.
